@@ -120,7 +120,8 @@ TRet ==
             LET S == Feasible(p.k, p.callSeq, seq, Ev.res)
                 S2 == {s \in S : s >= LoOf(Ev.t, p.k)} IN
             /\ viol' = viol \o
-                 (IF Ev.res = -1 THEN V(<<"C05", "C09">>, "GetFailed", <<p.k>>, 0)
+                 (IF Ev.res = -1
+                  THEN (IF runInfo.faults THEN <<>> ELSE V(<<"C05", "C09">>, "GetFailed", <<p.k>>, 0))
                   ELSE IF S = {} THEN V(<<"C05">>, "GetNotLinearizable", <<p.k, Ev.res>>, seq)
                   ELSE IF S2 = {} THEN V(<<"C05">>, "ReadWentBackwards", <<p.k, Ev.res>>, seq)
                   ELSE <<>>)
@@ -209,9 +210,24 @@ TPanic ==
   /\ l' = l + 1
   /\ UNCHANGED <<runInfo, nk, hist, seq, ends, pend, lastLo, snapOf, iterOf, acks, ids>>
 
+\* C11 at a point where nobody reads (no call pending, no snapshot or iterator alive, background
+\* work done, one more deletion pass made): one version is linked - a read view that was not
+\* given back would keep its version, and that version's files, for good - and the tables on disk
+\* are those of the current version
+TQuiet ==
+  /\ IsEv("Quiet")
+  /\ LET cur == {Ev.cur[i] : i \in 1..Len(Ev.cur)}
+         tabs == {Ev.tables[i] : i \in 1..Len(Ev.tables)} IN
+     viol' = viol \o
+       ((IF Ev.live # 1 THEN V(<<"C11">>, "VersionLeak", <<Ev.live>>, 0) ELSE <<>>)
+        \o (IF ~Ev.bad /\ tabs # cur
+            THEN V(<<"C11">>, "TablesNotExact", SetToSeq((tabs \ cur) \cup (cur \ tabs)), 0) ELSE <<>>))
+  /\ l' = l + 1
+  /\ UNCHANGED <<runInfo, nk, hist, seq, ends, pend, lastLo, snapOf, iterOf, acks, ids>>
+
 \* a call that never returned is reported by the driver as Hang; anything else is informational
 Known == {"Reset", "End", "Call", "Commit", "Ret", "Snapshot", "IterNew", "GetCapture", "Hang",
-          "Panic", "TableOpen", "Closed"}
+          "Panic", "TableOpen", "Closed", "Quiet"}
 
 TOther ==
   /\ l <= Len(Rec) /\ Rec[l].e \notin Known
@@ -220,7 +236,7 @@ TOther ==
 
 TraceNext ==
   \/ TReset \/ TEnd \/ TCall \/ TCommit \/ TRet \/ TSnapshot \/ TIterNew \/ TGetCapture
-  \/ THang \/ TPanic \/ TTableOpen \/ TClosed \/ TOther
+  \/ THang \/ TPanic \/ TTableOpen \/ TClosed \/ TQuiet \/ TOther
 
 TraceSpec == TraceInit /\ [][TraceNext]_vars
 
